@@ -397,6 +397,18 @@ var c17Sessions = [][]string{
 		"(in-package 'lib) (export 'pubfn 'pubtwo) (defun pubfn (val) (privfn val)) (defun pubtwo () (privfn 2))",
 		"(in-package 'user) (debug-print (lib:pubfn A) (lib:pubtwo))",
 	},
+	// a TYPE (deftype) is a global name like a function: exported from another file than the one that
+	// defines it, or private and reached from another package as pkg:name
+	{
+		"(in-package 'shapes) (deftype point (xv yv) (sorted-map \"x\" xv \"y\" yv)) (defun pointx (pt) (get (user-data pt) \"x\"))",
+		"(in-package 'shapes) (export 'point 'pointx)",
+		"(in-package 'user) (use-package 'shapes) (debug-print (pointx (new point A B)) (type? point (new point B A)))",
+	},
+	{
+		"(in-package 'shapes) (deftype point (xv yv) (sorted-map \"x\" xv \"y\" yv)) (defun pointx (pt) (get (user-data pt) \"x\")) (export 'pointx)",
+		"(in-package 'shapes) (defun sparefn (val) (+ val 1))",
+		"(in-package 'user) (use-package 'shapes) (debug-print (pointx (new shapes:point A B)) (shapes:sparefn B))",
+	},
 }
 
 // Every file of a session, minified together in a solver-chosen order of the definition files, then
